@@ -21,16 +21,21 @@ func c04ConcStage(children, cases int) Stage {
 	return Stage{Name: "conc", Scenario: "c05conc", Args: "prop=C04,props=C04", Children: children, Cases: cases, GOMAXPROCS: 8, Env: []string{c05Hooks}, Timeout: 20 * time.Minute}
 }
 
+// c04BulkStage: a batch of 1500 entities with an invalid entity beyond position 1000 is refused without any effect.
+func c04BulkStage(children, cases int) Stage {
+	return Stage{Name: "bulk", Scenario: "sdbulk", Args: "props=C04", Children: children, Cases: cases, Timeout: 10 * time.Minute}
+}
+
 func init() {
 	plans["C04"] = Plan{Prop: "C04", Level: "fault_enumeration",
-		Rule: "per generated write history (dataset creation, batches, two-dataset transactions; <= 14 ops): a dry run counts the hits of every hook point in StoreEntities / ExecuteTransaction / CreateDataset; then for (point, hit) pairs (quick: a PRNG sample per history; thorough: all) and PRNG-timed SIGKILLs a fresh writer process is killed there, the store is reopened and judged: state = acked ops or acked ops + the whole in-flight op (same choice in every dataset), raw cross-index invariant, post-restart writes get fresh positions and ids. A fourth stage (conc) runs 8 concurrent writers incl. transactions queued behind batches without a crash and applies the raw cross-index scan and the last-write agreement at the end. A third stage executes transactions through a contextual store (the JavaScript transform path), abandons the store without a further write and checks readability and the cross-index invariant after reopening. One case = (history, crash point); non-trivial = the kill landed inside an op (BEGIN without ACK)",
+		Rule: "per generated write history (dataset creation, batches, two-dataset transactions; <= 14 ops): a dry run counts the hits of every hook point in StoreEntities / ExecuteTransaction / CreateDataset; then for (point, hit) pairs (quick: a PRNG sample per history; thorough: all) and PRNG-timed SIGKILLs a fresh writer process is killed there, the store is reopened and judged: state = acked ops or acked ops + the whole in-flight op (same choice in every dataset), raw cross-index invariant, post-restart writes get fresh positions and ids. A fifth stage (bulk) stores a 1500-entity batch whose invalid entity lies beyond position 1000: it must be refused without any effect (then 1600 entities are written and read back in one call and in pages). A fourth stage (conc) runs 8 concurrent writers incl. transactions queued behind batches without a crash and applies the raw cross-index scan and the last-write agreement at the end. A third stage executes transactions through a contextual store (the JavaScript transform path), abandons the store without a further write and checks readability and the cross-index invariant after reopening. One case = (history, crash point); non-trivial = the kill landed inside an op (BEGIN without ACK)",
 		Assumptions: []string{"process kill (SIGKILL), not power loss: badger runs with the hub's own SyncWrites=false",
 			"crash points are the instrumented boundaries (MANIFEST.hooks) plus timed kills; instants between two hook points are reached only by the timed kills",
 			"the reference model decides what 'fully present' means; incoming-relation answers explained by the open C03 findings are not counted as crash effects"},
 		Stages: func(tier string) []Stage {
 			if tier == "thorough" {
-				return []Stage{crashStage("crash", "write", "C04", 16, 12, 0, 6), crashStage("crashmg", "mgmt", "C04", 8, 6, 40, 3), ctxTxnStage(8, 40), c04ConcStage(8, 10)}
+				return []Stage{crashStage("crash", "write", "C04", 16, 12, 0, 6), crashStage("crashmg", "mgmt", "C04", 8, 6, 40, 3), ctxTxnStage(8, 40), c04ConcStage(8, 10), c04BulkStage(8, 4)}
 			}
-			return []Stage{crashStage("crash", "write", "C04", 16, 1, 14, 2), ctxTxnStage(2, 8), c04ConcStage(3, 2)}
+			return []Stage{crashStage("crash", "write", "C04", 16, 1, 14, 2), ctxTxnStage(2, 8), c04ConcStage(3, 2), c04BulkStage(2, 1)}
 		}}
 }
